@@ -1,6 +1,73 @@
 """C01 - vector flavours behave as std::vector for every operation history (structural clauses)."""
-from .. import matrix, gen
+from .. import matrix, gen, witness
 from ..rules import encoding, lifetime, shape2, callgraph
+
+
+def sig_witnesses():
+    """Result types of every operation named in C01 equal std::vector's, modulo the iterator / size types."""
+    w = witness.Witnesses('c01', ['<amc/vector.hpp>', '<amc/smallvector.hpp>', '<amc/fixedcapacityvector.hpp>', '<vector>', '<type_traits>', '<utility>', '<initializer_list>'])
+    w.prelude.append('''
+template <bool B, class X, class Y> using cnd = typename std::conditional<B, X, Y>::type;
+// the amc type expected where std::vector returns S
+template <class S, class SV, class AV>
+using expect = cnd<std::is_same<S, typename SV::iterator>::value, typename AV::iterator,
+               cnd<std::is_same<S, typename SV::const_iterator>::value, typename AV::const_iterator,
+               cnd<std::is_same<S, typename SV::reverse_iterator>::value, typename AV::reverse_iterator,
+               cnd<std::is_same<S, typename SV::const_reverse_iterator>::value, typename AV::const_reverse_iterator,
+               cnd<std::is_same<S, typename SV::size_type>::value, typename AV::size_type,
+               cnd<std::is_same<S, SV &>::value, AV &, S> > > > > >;
+using SV = std::vector<int>;
+#define V_ std::declval<V &>()
+#define C_ std::declval<const V &>()
+#define CI_ std::declval<typename V::const_iterator>()
+#define SZ_ std::declval<typename V::size_type>()
+#define PI_ std::declval<const int *>()
+#define IL_ std::declval<std::initializer_list<int> >()
+#define SAME(E) std::is_same<decltype(vexpr<AV>::E), expect<decltype(vexpr<SV>::E), SV, AV> >::value
+template <class V> struct vexpr {
+  static auto begin() -> decltype(V_.begin());            static auto cbegin_c() -> decltype(C_.begin());
+  static auto end() -> decltype(V_.end());                static auto cend() -> decltype(C_.cend());
+  static auto rbegin() -> decltype(V_.rbegin());          static auto crbegin() -> decltype(C_.rbegin());
+  static auto rend() -> decltype(V_.rend());              static auto crend() -> decltype(C_.crend());
+  static auto size() -> decltype(C_.size());              static auto capacity() -> decltype(C_.capacity());
+  static auto max_size() -> decltype(C_.max_size());      static auto empty() -> decltype(C_.empty());
+  static auto data() -> decltype(V_.data());              static auto cdata() -> decltype(C_.data());
+  static auto index() -> decltype(V_[SZ_]);               static auto cindex() -> decltype(C_[SZ_]);
+  static auto at() -> decltype(V_.at(SZ_));               static auto cat() -> decltype(C_.at(SZ_));
+  static auto front() -> decltype(V_.front());            static auto cfront() -> decltype(C_.front());
+  static auto back() -> decltype(V_.back());              static auto cback() -> decltype(C_.back());
+  static auto push_back() -> decltype(V_.push_back(1));   static auto pop_back() -> decltype(V_.pop_back());
+  static auto emplace() -> decltype(V_.emplace(CI_, 1));
+  static auto insert1() -> decltype(V_.insert(CI_, 1));   static auto insertn() -> decltype(V_.insert(CI_, SZ_, 1));
+  static auto insertr() -> decltype(V_.insert(CI_, PI_, PI_));  static auto insertil() -> decltype(V_.insert(CI_, IL_));
+  static auto erase1() -> decltype(V_.erase(CI_));        static auto erase2() -> decltype(V_.erase(CI_, CI_));
+  static auto clear() -> decltype(V_.clear());            static auto resize() -> decltype(V_.resize(SZ_));
+  static auto resizev() -> decltype(V_.resize(SZ_, 1));   static auto reserve() -> decltype(V_.reserve(SZ_));
+  static auto shrink() -> decltype(V_.shrink_to_fit());   static auto assignn() -> decltype(V_.assign(SZ_, 1));
+  static auto assignr() -> decltype(V_.assign(PI_, PI_)); static auto assignil() -> decltype(V_.assign(IL_));
+  static auto swap() -> decltype(V_.swap(V_));            static auto copyassign() -> decltype(V_ = C_);
+  static auto moveassign() -> decltype(V_ = std::declval<V>());  static auto ilassign() -> decltype(V_ = IL_);
+  static auto eq() -> decltype(C_ == C_);                 static auto ne() -> decltype(C_ != C_);
+  static auto lt() -> decltype(C_ < C_);                  static auto le() -> decltype(C_ <= C_);
+  static auto gt() -> decltype(C_ > C_);                  static auto ge() -> decltype(C_ >= C_);
+#if __cplusplus >= 201703L
+  static auto emplace_back() -> decltype(V_.emplace_back(1));
+#endif
+};
+''')
+    ops = ['begin', 'cbegin_c', 'end', 'cend', 'rbegin', 'crbegin', 'rend', 'crend', 'size', 'capacity', 'max_size', 'empty', 'data', 'cdata', 'index', 'cindex',
+           'at', 'cat', 'front', 'cfront', 'back', 'cback', 'push_back', 'pop_back', 'emplace', 'insert1', 'insertn', 'insertr', 'insertil', 'erase1', 'erase2',
+           'clear', 'resize', 'resizev', 'reserve', 'shrink', 'assignn', 'assignr', 'assignil', 'swap', 'copyassign', 'moveassign', 'ilassign', 'eq', 'ne', 'lt',
+           'le', 'gt', 'ge']
+    for i, (nm, AV) in enumerate([('vector', 'amc::vector<int>'), ('SmallVector4', 'amc::SmallVector<int, 4>'), ('FCV8', 'amc::FixedCapacityVector<int, 8>')]):
+        w.prelude.append('namespace w%d { using AV = %s;' % (i, AV))
+        w.prelude.append('}')
+        for op in ops:
+            w.add('SIG', 'sig|%s|%s' % (nm, op), 'std::is_same<decltype(vexpr<%s >::%s()), expect<decltype(vexpr<SV>::%s()), SV, %s > >::value' % (AV, op, op, AV),
+                  '%s::%s has the result type of std::vector::%s (modulo iterator / size types)' % (nm, op, op))
+        w.add('SIG', 'sig|%s|emplace_back' % nm, 'std::is_same<decltype(vexpr<%s >::emplace_back()), expect<decltype(vexpr<SV>::emplace_back()), SV, %s > >::value' % (AV, AV),
+              'emplace_back returns a reference (C++17)', minstd=17)
+    return w
 
 
 def run(tier, runner):
@@ -19,6 +86,9 @@ def run(tier, runner):
     r_tail = lifetime.tail(vp + real)
     r_alias = lifetime.alias(vp)
     r_alias.require(14, 'operations taking a reference to an element value')
+    ws = sig_witnesses()
+    r_sig = witness.run_witnesses(runner, ws, [(17, True, False)] if tier == 'quick' else [(11, True, False), (14, True, False), (17, True, False)],
+                                  ['clang++'] if tier == 'quick' else ['clang++', 'g++'], {'SIG': "result types of every operation equal std::vector's modulo the iterator and size types"})
     r_w.require(18, 'stores to the size words of SmallVectorBase')
     r_r.require(3, 'value reads of _size')
     r_span.require(6, 'inline vector layouts')
@@ -27,14 +97,14 @@ def run(tier, runner):
     r_cd.require(20, 'constructs into container storage')
     r_tail.require(12, 'size commits')
     return {
-        'results': [r_w, r_r, r_span, r_it, r_ov, r_cd, r_tail, r_alias],
+        'results': [r_w, r_r, r_span, r_it, r_ov, r_cd, r_tail, r_alias] + r_sig,
         'explanation': 'C01 as stated (equality of sequences with std::vector over histories) is a statement about run-time values and is not decided.  '
                        'Decided: structural clauses, each necessary for it.  ENC-W / ENC-R: the inline size/capacity words of SmallVector are written only '
                        'by the encoders, jointly, or on an object known to be large, and every value read of `_size` honours the full marker.  '
                        'INLINE-SPAN: the N inline slots lie inside the object and nothing else lives there (record layout of every inline instantiation).  '
                        'ITER1: range members instantiated with a single-pass iterator traverse it once.  OVERLAP: erase of an empty range performs no '
                        'element operation (no self move assignment).  CHECK-DOM: no operation, including the move/swap bookkeeping of the bases, '
-                       'constructs into storage whose capacity was not checked.  TAIL: every size commit follows the lifetime operation it accounts for.  ALIAS (shared with C10): a value argument that designates an element of the same vector is read before any element moves, or through a correctly re-based reference / pointer.',
+                       'constructs into storage whose capacity was not checked.  TAIL: every size commit follows the lifetime operation it accounts for.  ALIAS (shared with C10): a value argument that designates an element of the same vector is read before any element moves, or through a correctly re-based reference / pointer.  SIG: the result type of every operation equals that of std::vector modulo the iterator and size types (compile-time).',
         'assumptions': ['element sequences, sizes and returned positions over histories are not decided (value statements)'],
         'trusted': ['clang 14 record layout', 'the helper-role table', 'the amcsa plugin export'],
     }
